@@ -24,6 +24,9 @@ type c16Case struct {
 type c16Iter struct {
 	C     sb.V   `json:"c"`
 	Probe []sb.V `json:"probe,omitempty"`
+	// Grow > 0: the iteratee adds entries to the map at that step (string-keyed
+	// maps only); the metadata of the traversal performed must stay coherent.
+	Grow int `json:"grow,omitempty"`
 }
 
 func vnum(f float64) sb.V  { return sb.V{K: "num", N: f} }
@@ -287,6 +290,22 @@ func expectMethod(p sb.V, name string, args []sb.V) expect {
 			return expect{mode: "elem", repr: "#" + m.FmtNum(args[0].N*2)}
 		}
 		return expect{mode: "either", repr: "*"}
+	case "Slot":
+		// Slot(n uint8): a number is usable exactly when it is an integer in 0..255
+		if len(args) != 1 {
+			return expect{mode: "error"}
+		}
+		if !isNumKind(args[0].K) {
+			return expect{mode: "either", repr: "*"}
+		}
+		f := numOf(args[0])
+		if f != math.Trunc(f) || f < 0 || f > 255 {
+			return expect{mode: "error"}
+		}
+		if goType(args[0]) == "uint8" {
+			return expect{mode: "elem", repr: strconv.Quote("slot:" + strconv.Itoa(int(f)))}
+		}
+		return expect{mode: "either", repr: strconv.Quote("slot:" + strconv.Itoa(int(f)))}
 	case "Flag":
 		if ex, ar := typed("bool"); !ar {
 			return expect{mode: "error"}
@@ -334,6 +353,12 @@ func c16Containers() []sb.V {
 		{K: "map:any:int", KV: []sb.V{vstr("a"), vk("int", 7), vnum(2.5)}, E: []sb.V{vnum(1), vnum(2), vnum(3)}},
 		{K: "map:float64:str", KV: []sb.V{vnum(1.5), vnum(2)}, E: []sb.V{vstr("x"), vstr("two")}},
 		{K: "map:uint8:str", KV: []sb.V{vk("uint8", 3)}, E: []sb.V{vstr("three")}},
+		// keys at the edge of their type: a same-width integer of the other
+		// signedness must not wrap around onto them
+		{K: "map:uint8:str", KV: []sb.V{vk("uint8", 255), vk("uint8", 3)}, E: []sb.V{vstr("top"), vstr("three")}},
+		{K: "map:uint16:str", KV: []sb.V{vk("uint16", 65535)}, E: []sb.V{vstr("top16")}},
+		{K: "map:uint32:str", KV: []sb.V{vk("uint32", 4294967295)}, E: []sb.V{vstr("top32")}},
+		{K: "map:int8:str", KV: []sb.V{vk("int8", -1), vk("int8", 127)}, E: []sb.V{vstr("minus one"), vstr("max")}},
 		{K: "map:bool:str", KV: []sb.V{{K: "bool", B: true}}, E: []sb.V{vstr("yes")}},
 		{K: "map:kstr:int", KV: []sb.V{vstr("a"), vstr("1")}, E: []sb.V{vnum(11), vnum(12)}},
 		{K: "arr", E: []sb.V{vnum(10), vstr("s"), {K: "null"}}},
@@ -360,18 +385,18 @@ func c16Keys() []sb.V {
 		vstr("a"), vstr("b"), vstr("zz"), vstr("0"), vstr("1"), vstr("n"), vstr(""), vstr("7"),
 		vstr("Name"), vstr("Age"), vstr("Tags"), vstr("M"), vstr("Inner"), vstr("priv"), vstr("Extra"), vstr("Person"), vstr("Nope"), vstr("unexported"),
 		vnum(0), vnum(1), vnum(2), vnum(3), vnum(-1), vnum(7), vnum(1.5), vnum(2.5), vnum(1e30), vnum(-1e30),
-		vk("int", 0), vk("int", 1), vk("int", 7), vk("int", -1), vk("uint8", 2), vk("uint8", 3), vk("int64", 0), vk("float32", 1), vk("uint64", 9),
+		vk("int", 0), vk("int", 1), vk("int", 7), vk("int", -1), vk("uint8", 2), vk("uint8", 3), vk("uint8", 255), vk("int8", -1), vk("int16", -1), vk("int32", -1), vk("int64", 0), vk("float32", 1), vk("uint64", 9),
 		{K: "bool", B: true}, {K: "bool"}, {K: "null"},
 		{K: "arr", E: []sb.V{vnum(1)}}, {K: "person", S: "k"},
 	}
 }
 
 func c16Methods() []string {
-	return []string{"Greet", "PtrName", "Zero", "Nothing", "Two", "Sum", "F64", "Flag", "Any", "Var", "Join", "Named", "Tag", "Self", "unexported", "Nope"}
+	return []string{"Greet", "PtrName", "Zero", "Nothing", "Two", "Sum", "F64", "Flag", "Any", "Var", "Join", "Named", "Tag", "Slot", "Self", "unexported", "Nope"}
 }
 
 func c16ArgLists() [][]sb.V {
-	atoms := []sb.V{vstr("s"), vnum(2), vk("int", 3), {K: "bool", B: true}, {K: "null"}, {K: "arr", E: []sb.V{vnum(1)}}, vk("float32", 1.5)}
+	atoms := []sb.V{vstr("s"), vnum(2), vk("int", 3), {K: "bool", B: true}, {K: "null"}, {K: "arr", E: []sb.V{vnum(1)}}, vk("float32", 1.5), vk("int8", -1), vk("uint8", 200), vk("int", -1), vnum(300)}
 	out := [][]sb.V{{}}
 	for _, a := range atoms {
 		out = append(out, []sb.V{a})
@@ -444,11 +469,19 @@ func init() {
 		return nil
 	})
 	iter := NewSub(p, "iterate", func(c *Ctx, cs *c16Iter) *Fail {
-		r := c.SB.Do(&sb.Req{Op: "iterate", Vals: []sb.V{cs.C}, Args: [][]sb.V{cs.Probe}})
+		req := &sb.Req{Op: "iterate", Vals: []sb.V{cs.C}, Args: [][]sb.V{cs.Probe}}
+		if cs.Grow > 0 {
+			req.Extra = map[string]string{"grow": strconv.Itoa(cs.Grow)}
+		}
+		r := c.SB.Do(req)
 		if r.Fatal() || r.Status != "ok" {
 			return fatalFail(r)
 		}
 		key, _ := jsonStr(cs)
+		if cs.Grow > 0 {
+			c.Ev.Count(key, true, "iter:growing-map")
+			return judgeGrowing(cs, r.Items[0])
+		}
 		inner, np := unwrapPtr(cs.C)
 		c.Ev.Count(key, len(inner.E) >= 2, "iter:"+strings.SplitN(inner.K, ":", 2)[0], fmt.Sprintf("ptr-depth:%d", np))
 		if len(inner.E) >= 2 {
@@ -542,6 +575,19 @@ func init() {
 			return cs
 		})
 		iter.Rapid(c, c.Share(c.Pick(10000, 1000000)), genIter)
+		// string-keyed maps (direct and behind a pointer) that grow while iterated
+		iter.Rapid(c, c.Share(c.Pick(1500, 100000)), func(t *rapid.T) *c16Iter {
+			n := rapid.IntRange(1, 9).Draw(t, "n")
+			h := sb.V{K: "hash"}
+			for i := 0; i < n; i++ {
+				h.KS = append(h.KS, fmt.Sprintf("k%d", i))
+				h.E = append(h.E, vnum(float64(i)))
+			}
+			if rapid.Bool().Draw(t, "ptr") {
+				h = sb.V{K: "ptr", E: []sb.V{h}}
+			}
+			return &c16Iter{C: h, Grow: rapid.IntRange(1, n).Draw(t, "at")}
+		})
 	}
 	Register(p)
 }
@@ -618,6 +664,41 @@ func genIter(t *rapid.T) *c16Iter {
 	}
 	cs.Probe = append(cs.Probe, vstr("foreign!"), vnum(-12345))
 	return cs
+}
+
+// judgeGrowing judges a traversal during which the iteratee added entries to
+// the map: whatever the traversal covers, its metadata must be coherent (one
+// length, consecutive indices, first only on the first and last only on the
+// final step performed, as many steps as the length announces).
+func judgeGrowing(cs *c16Iter, it sb.Item) *Fail {
+	if it.Status == "panic" {
+		return &Fail{Sig: "panic:" + it.Site + ":" + normMsg(it.Msg), Expected: "no panic", Observed: it.Msg}
+	}
+	bad := func(exp, obs string) *Fail {
+		return &Fail{Sig: "iterate:growing-map", Expected: exp, Observed: obs + fmt.Sprintf(" (steps %v)", it.L)}
+	}
+	if it.Status != "ok" {
+		return bad("ok", it.Status+": "+it.Msg)
+	}
+	m := len(it.L)
+	seen := map[string]bool{}
+	for i, step := range it.L {
+		parts := strings.SplitN(step, "|", 2)
+		if seen[parts[0]] {
+			return bad("every entry at most once", "twice: "+parts[0])
+		}
+		seen[parts[0]] = true
+		var index, index0, rev, rev0, length int
+		var first, last bool
+		fmt.Sscanf(strings.NewReplacer(",", " ").Replace(parts[1]), "%d %d %d %d %t %t %d", &index, &index0, &rev, &rev0, &first, &last, &length)
+		if index != i+1 || index0 != i || rev != length-i || rev0 != length-i-1 || length != m || first != (i == 0) || last != (i == m-1) {
+			return bad(fmt.Sprintf("step %d of %d: index=%d index0=%d revindex=length-%d revindex0=length-%d length=%d first=%v last=%v", i, m, i+1, i, i, i+1, m, i == 0, i == m-1), parts[1])
+		}
+	}
+	if int(it.N) != m {
+		return bad(fmt.Sprintf("returned count %d", m), fmt.Sprint(it.N))
+	}
+	return nil
 }
 
 func judgeIter(cs *c16Iter, it sb.Item) *Fail {
